@@ -96,6 +96,13 @@ func c13Reset(c *vcore.Ctx) *vcore.Violation {
 		cred = credGen{uint32(10000 + src.Int(100, "uid")), uint32(10000 + src.Int(100, "gid"))}
 	}
 	extraTmp := src.Bool(1, 2, "extra_tmpfs")
+	// a configured symbolic link that lives inside a writable mount: a tenant may replace it by something of its own
+	linkInW := src.Bool(1, 2, "configured_link_in_writable_mount")
+	kSymLinks = nil
+	if linkInW {
+		kSymLinks = []container.SymbolicLink{{LinkPath: "/w/in", Target: "/tmp"}, {LinkPath: "/dev/fd", Target: "/proc/self/fd"}}
+	}
+	defer func() { kSymLinks = nil }()
 	ct, err := kBuildContainer(func(b *mount.Builder) {
 		if extraTmp {
 			b.WithTmpfs("scratch", "size=4m")
@@ -118,6 +125,12 @@ func c13Reset(c *vcore.Ctx) *vcore.Violation {
 		for r := 0; r < nruns; r++ {
 			dir := "/" + mounts[src.Int(len(mounts), "where")]
 			script := tenantScript(c, dir, t*10+r)
+			if linkInW && src.Bool(1, 2, "replace_configured_link") {
+				// the tenant puts a directory of its own where the configured link was
+				script = append([]string{"sys", "87", "s:/w/in", "0", "0", "0", "0", "0", "sys", "83", "s:/w/in", "0755", "0", "0", "0", "0",
+					"sys", "2", "s:/w/in/note", "0x41", "0644", "0", "0", "0"}, script...)
+				c.Event("replace_configured_link")
+			}
 			c.Logf("tenant %d run %d litters %s: %q", t, r, dir, script)
 			var res runner.Result
 			if !watchdog(60*time.Second, func() { res, _ = ct.exec(context.Background(), &kExec{script: script}) }) {
@@ -135,11 +148,17 @@ func c13Reset(c *vcore.Ctx) *vcore.Violation {
 			if err != nil {
 				vcore.Harnessf("host view of /%s: %v", m, err)
 			}
-			if len(ents) > 0 {
-				var names []string
-				for _, e := range ents {
-					names = append(names, fmt.Sprintf("%q(%s)", e.Name(), e.Type()))
+			var names []string
+			for _, e := range ents {
+				if linkInW && m == "w" && e.Name() == "in" {
+					// the configured link itself may stay or go; anything else under its name is a tenant's
+					if tgt, err := os.Readlink(fmt.Sprintf("/proc/%d/root/w/in", initPid)); err == nil && tgt == "/tmp" {
+						continue
+					}
 				}
+				names = append(names, fmt.Sprintf("%q(%s)", e.Name(), e.Type()))
+			}
+			if len(names) > 0 {
 				kind := "residue_after_reset"
 				site := "mount:" + m
 				if m == "scratch" {
@@ -159,8 +178,17 @@ func c13Reset(c *vcore.Ctx) *vcore.Violation {
 		}
 		script = append(script, "exit", "0")
 		watchdog(60*time.Second, func() { _, out = ct.exec(context.Background(), &kExec{script: script}) })
-		if out != nil && len(out.find("ent ")) > 0 {
-			return vcore.Violate(prop, "residue_after_reset", "tenant_view", "the next tenant sees %v", out.find("ent "))
+		if out != nil {
+			var seen []string
+			for _, l := range out.find("ent ") {
+				if linkInW && l == "ent 10 in" {
+					continue // the configured link (a symbolic link named "in"); the host view above checked where it leads
+				}
+				seen = append(seen, l)
+			}
+			if len(seen) > 0 {
+				return vcore.Violate(prop, "residue_after_reset", "tenant_view", "the next tenant sees %v", seen)
+			}
 		}
 		if err := ct.env.Ping(); err != nil {
 			return vcore.Violate(prop, "unusable_after_reset", "ping", "environment unusable after Reset: %v", err)
